@@ -495,6 +495,65 @@ def check_params(ck, pi, lit, prog, form):
                 return
 
 
+def flags_and_sums_stream(rep, rng, count):
+    """Oracle-only stream on the real objects: (a) substitutions that leave the data of a box equal
+    (phi -> phi, phi -> phi + 0, chained pairs that swap two symbols back) keep the box as it was -
+    in particular its mixedness - for generic circuit boxes, pure and mixed; (b) formal sums with no
+    term, and sums nested in sums: lambdify(...)(values) equals subs with the same values, with the
+    same dom, cod and number of terms."""
+    import sympy
+    from discopy.quantum import circuit as C, gates as G
+    from discopy.quantum.circuit import qubit
+    phi, psi = sympy.symbols("phi psi")
+    bad = 0
+
+    def fail(what, payload=None):
+        nonlocal bad
+        bad += 1
+        rep.count("oracle:flags-sums:FAIL")
+        if bad <= 4:
+            rep.violation(what, payload or {})
+    for k in range(count):
+        rep.count("stream:flags-sums")
+        try:
+            mixed = bool(k % 2)
+            data = rng.choice([phi, phi + psi, 2 * phi, phi * psi])
+            b = C.Box("b", qubit, qubit, data=data, is_mixed=mixed)
+            for name, args in (("subs(phi, phi)", (phi, phi)), ("subs(phi, phi + 0)", (phi, phi + 0)),
+                               ("subs([(phi, psi), (psi, phi)]) twice", None)):
+                r = b.subs(*args) if args else b.subs([(phi, psi)]).subs([(psi, phi)]) if data == phi else b.subs(phi, phi)
+                if r.is_mixed != b.is_mixed or r.dom != b.dom or r.cod != b.cod or r.data != b.data and args:
+                    fail("%s on a %s generic circuit box returns a box with is_mixed=%r, data %r" % (
+                        name, "mixed" if mixed else "pure", r.is_mixed, r.data), {"box": repr(b)})
+                    break
+                whole = (G.Ket(0) >> b >> G.H)
+                rw = whole.subs(*args) if args else whole
+                if rw.is_mixed != whole.is_mixed:
+                    fail("%s turns a %s circuit into a %s one" % (name, "mixed" if whole.is_mixed else "pure",
+                                                                   "mixed" if rw.is_mixed else "pure"), {"box": repr(b)})
+                    break
+            else:
+                # (b) sums
+                c1, c2 = G.Rx(phi), G.Rz(phi + psi)
+                empty = C.Sum([], qubit, qubit) if hasattr(C, "Sum") else None
+                val = rng.choice([0.25, 0.5, 1])
+                if empty is not None:
+                    a1 = empty.lambdify(phi, psi)(val, 0.5)
+                    a2 = empty.subs([(phi, val), (psi, 0.5)])
+                    if len(a1.terms) != 0 or a1.dom != qubit or a1.cod != qubit or len(a2.terms) != 0:
+                        fail("lambdify / subs of the empty sum do not give the empty sum on the same types")
+                        continue
+                nested = C.Sum([c1, C.Sum([c2, c1], qubit, qubit)], qubit, qubit)
+                l1 = nested.lambdify(phi, psi)(val, 0.5)
+                l2 = nested.subs([(phi, val), (psi, 0.5)])
+                if len(l1.terms) != len(l2.terms) or l1 != l2:
+                    fail("lambdify and subs disagree on a sum nested in a sum: %d vs %d terms" % (len(l1.terms), len(l2.terms)))
+                    continue
+                rep.count("oracle:flags-sums:pass")
+        except Exception as exc:   # noqa
+            fail("flags / sums stream raised %s: %s" % (type(exc).__name__, exc))
+
+
 def run(tier, seed):
     import param_impl as pi
     rep = Report("C14", tier, seed)
@@ -801,6 +860,7 @@ def run(tier, seed):
         eval_oracle(ck, pi, rep, c)
     rep.count("eval-oracle-cases", n_eval)
 
+    flags_and_sums_stream(rep, random.Random(seed + 1414), 40 if tier == "quick" else 600)
     base.settle(rep, "C14", proof_ok, "C14")
     return rep.finish(
         rule="literal diagrams of classes cat, monoidal, rigid, tensor, circuit (evaluable: rotations, "
